@@ -315,13 +315,12 @@ def run(ctx):
     pcg = PolyCtx(P, g, Cg)
     LSg = loops_of(P, g, pcg)
     column_loop = [None]
-    def cursor_check(ptr_operand, at_block, inst, what, loc):
+    def _cursor_check_with(L0, rr, ptr_operand, at_block, inst, what, loc):
         """the offset of ptr_operand uses exactly one counter of the innermost loop that starts at 0 and is incremented by one in
         the iterations that pass at_block (and only there is irrelevant: the other branch has its own counter)"""
         enclosing = sorted([l_ for l_ in LSg if at_block in l_.body], key=lambda l_: len(l_.body))
-        L0 = column_loop[0]
         if L0 is None or L0 not in enclosing:
-            r.fail(inst, func=g.name, sig=f'{what} outside the column loop', loc=loc, msg=f'{what} is not inside the loop over the columns')
+            rr.fail(inst, func=g.name, sig=f'{what} outside the column loop', loc=loc, msg=f'{what} is not inside the loop over the columns')
             return
         L = L0.via(at_block)
         root, off = L.pc.ptr(ptr_operand)
@@ -374,13 +373,32 @@ def run(ctx):
         hg = {gd.iv for gd in L0.guards() if gd.block is L0.header}
         own = [w for w in walking if w[0].res not in hg]
         if own:
-            r.ok(inst + f': counter {own[0][0].res} starts at 0 and advances by one in this branch', func=g.name, loc=loc, facts={'offset': str(off)})
+            rr.ok(inst + f': counter {own[0][0].res} starts at 0 and advances by one in this branch', func=g.name, loc=loc, facts={'offset': str(off)})
         elif cands and all(st is not None and st.is_zero() for p_, _, st in cands if p_.res not in hg) and any(p.res not in hg for p, _, _ in cands):
-            r.fail(inst, func=g.name, sig=f'{what}: cursor not advanced in its branch', loc=loc,
+            rr.fail(inst, func=g.name, sig=f'{what}: cursor not advanced in its branch', loc=loc,
                    msg=f'{what} is indexed by a cursor that is not incremented where it is used (offset {off}): every column of this kind lands on the first row/column')
         else:
-            r.fail(inst, func=g.name, sig=f'{what}: offset {str(off)[:50]} has no walking counter', loc=loc,
+            rr.fail(inst, func=g.name, sig=f'{what}: offset {str(off)[:50]} has no walking counter', loc=loc,
                    msg=f'{what} has offset {off}: not indexed by a counter that starts at 0 and advances by one with each column of its kind')
+    def cursor_check(ptr_operand, at_block, inst, what, loc):
+        """try the loop that holds both kinds of columns first; when the two kinds are handled in separate passes (loop fission) each
+        use has its own column loop: any enclosing loop in which the offset has a counter that starts at 0 and advances by one"""
+        from .c06 import _Buffered
+        enclosing = sorted([l_ for l_ in LSg if at_block in l_.body], key=lambda l_: len(l_.body))
+        cands = ([column_loop[0]] if column_loop[0] in enclosing else []) + [l_ for l_ in enclosing if l_ is not column_loop[0]]
+        first = None
+        for L0 in cands:
+            buf = _Buffered()
+            _cursor_check_with(L0, buf, ptr_operand, at_block, inst, what, loc)
+            first = first or buf
+            if not buf.fails():
+                buf.replay(r)
+                return
+        if first is None:
+            r.fail(inst, func=g.name, sig=f'{what} outside the column loop', loc=loc, msg=f'{what} is not inside the loop over the columns')
+        else:
+            first.replay(r)
+
     def from_call(v):
         d_ = g.defs.get(strip_int_casts(g, v))
         return d_ is not None and d_.op == 'call'
